@@ -633,10 +633,19 @@ def rule_extract(ctx):
             ctx.cannot("R7", "extract:route:" + name, "local `%s` not found" % name, ctx.loc(b))
             continue
         arms = set()
+        numeric = []
         for (db, dj, full) in S.defs().get(l, []):
             for c in Q.canon_conds(P, T.dom_conds(b, S, db)):
                 if c[0] == "variant" and c[3] and c[2] in set(want.values()) | {"SupportedVersions", "KeyShare"}:
                     arms.add(c[2])
+                # the payload is taken whenever the extension carries one: nothing about its contents (a name type, a length, a
+                # particular value) decides whether it is recorded - JA4's `d`/`i` flag and ALPN characters only ask `is it there`
+                if c[0] in ("cmp", "int") and any(x[0] == "call" and x[1].endswith(("::first", "::get", "::next")) or x[0] == "index" for y in ([c[2], c[3]] if c[0] == "cmp" else [c[1]]) for x in T.walk(y)):
+                    numeric.append(T.pp(c[2] if c[0] == "cmp" else c[1])[:40])
+        if name in ("sni", "alpn"):
+            ctx.check(not numeric, "R7", "extract:%s:unconditional" % name, "%s recorded whenever the extension has a first entry" % name,
+                      "%s is recorded only when %s: a ClientHello that carries the extension with another entry kind is fingerprinted as if the extension were absent "
+                      "(`i` instead of `d`) although the extension id is still listed" % (name, numeric[:2]), ctx.loc(b))
         ctx.check(arms == {var}, "R7", "extract:route:" + name, "%s assigned in the %s arm" % (name, var),
                   "%s is assigned under extension arm(s) %s, expected %s" % (name, sorted(arms), var), ctx.loc(b))
 
